@@ -405,7 +405,12 @@ class KeyrefCounter(IdentityCounter):
         if self.refer is None:
             return  # don't validate with an unbuilt keyref
 
-        refer_values = identities[self.refer].counter
+        refer = self.refer
+        for identity in self.identity.parent.identities:
+            if identity.ref is refer:
+                refer = identity  # the key is reused by reference in the keyref's scope element
+                break
+        refer_values = identities[refer].counter
 
         for v in filter(lambda x: x not in refer_values, self.counter):
             if len(v) == 1 and v[0] in refer_values:
